@@ -6,6 +6,8 @@ Everything is for an arbitrary similarity test `sim : List Nat → List Nat → 
 -/
 import Compass.Proofs.SearchRoute
 import Compass.Proofs.SearchDiscipline
+import Compass.Proofs.SearchLimits
+import Compass.Proofs.ConfigUniform
 import Compass.Model.Ksp
 
 namespace Compass
@@ -2065,6 +2067,336 @@ theorem yens_ok {c : Config α} (hf : c.fwd.AdjConsistent)
 
 end yen
 
+/-! ### the state of a whole route (under the search discipline) -/
+
+theorem Reaccumulated.take {cf : Config α} :
+    ∀ {r : List (Branch α)} {prev : Option Nat} {st : List α} (n : Nat),
+      Reaccumulated cf prev st r → Reaccumulated cf prev st (r.take n)
+  | [], _, _, n, _ => by simp [Reaccumulated]
+  | _ :: _, _, _, 0, _ => by simp [Reaccumulated]
+  | b :: bs, _, _, n + 1, h => by
+    simp only [List.take_succ_cons]
+    exact ⟨h.1, Reaccumulated.take n h.2⟩
+
+theorem Reaccumulated.append {cf : Config α} :
+    ∀ {a : List (Branch α)} {prev : Option Nat} {st : List α} {b : List (Branch α)},
+      Reaccumulated cf prev st a →
+      Reaccumulated cf (match a.getLast? with | some l => some l.edge | none => prev)
+        (match a.getLast? with | some l => l.state | none => st) b →
+      Reaccumulated cf prev st (a ++ b)
+  | [], _, _, _, _, hb => by simpa using hb
+  | [x], _, _, _, ha, hb => by
+    simp only [List.getLast?_singleton] at hb
+    exact ⟨ha.1, hb⟩
+  | x :: y :: r, _, _, _, ha, hb => by
+    refine ⟨ha.1, Reaccumulated.append (a := y :: r) ha.2 ?_⟩
+    rw [List.getLast?_cons_cons] at hb
+    cases hl : (y :: r).getLast? with
+    | none => simp at hl
+    | some l => simp only [hl] at hb ⊢; exact hb
+
+/-- a route accumulated from the initial state, continued from its last edge and state -/
+theorem reaccumulated_append_init {cf : Config α} {a b : List (Branch α)}
+    (ha : Reaccumulated cf none (initialState cf.feats) a)
+    (hb : Reaccumulated cf (lastEdge a) (lastState cf a) b) :
+    Reaccumulated cf none (initialState cf.feats) (a ++ b) := by
+  apply Reaccumulated.append ha
+  unfold lastEdge lastState at hb
+  cases h : a.getLast? with
+  | none => simpa [h] using hb
+  | some l => simpa [h] using hb
+
+theorem reaccumulated_of_linksFresh {cf : Config α} :
+    ∀ {r : List (Branch α)} {prev : Option (Branch α)},
+      SearchDiscipline.LinksFresh cf.inst prev r →
+      Reaccumulated cf (prev.map (·.edge))
+        (match prev with | some a => a.state | none => initialState cf.feats) r
+  | [], _, _ => trivial
+  | b :: _, none, h => ⟨h.1.2, reaccumulated_of_linksFresh (prev := some b) h.2⟩
+  | b :: _, some _, h => ⟨h.1.2, reaccumulated_of_linksFresh (prev := some b) h.2⟩
+
+/-- **every tree path of a search under the discipline is a forward accumulation from the initial
+state** (consistent vertex heuristic `H`; Dijkstra is `H = 0`): the backtrack from ANY vertex of the
+final tree, not only from the target -/
+theorem tree_path_reaccumulated {cf : Config α} (hI : WF cf.inst) {H : Nat → α} {source t : Nat}
+    (hH : SearchDiscipline.Heur cf.inst true H) {sched : List Nat} {res : SearchResult α}
+    (hts : t ≠ source) (hrun : runVertexOriented cf.inst source (some t) sched = .ok res)
+    {v fuel : Nat} {route : List (Branch α)}
+    (hbt : backtrack source v res.final.sol fuel = .ok route) :
+    Reaccumulated cf none (initialState cf.feats) route := by
+  obtain ⟨hinv, _, _⟩ := SearchTree.runVertexOriented_route hI source t sched res hts hrun
+  have hastar : runAStar cf.inst source (some t) sched = .ok res.final := by
+    unfold runVertexOriented at hrun
+    split at hrun
+    · cases hrun
+    · rename_i s hs
+      simp only at hrun
+      split at hrun
+      · cases hrun
+      · cases hrun; exact hs
+  have hts' : (some t : Option Nat) ≠ some source := fun h => hts (Option.some.inj h)
+  obtain ⟨pre, rest, h, _, _, hd, hfin⟩ :=
+    SearchDiscipline.runAStar_disc (target := some t) hI hH hastar hts'
+  have hsol : res.final.sol = h.sol := hfin.fields.2.1
+  have hrc := SearchTree.route_chain hinv hbt
+  have hall : ∀ b ∈ route, SearchDiscipline.Fresh cf.inst source res.final.sol b ∧
+      res.final.sol (cf.inst.keyV b.edge) = some b ∧ cf.inst.keyV b.edge ≠ source := by
+    intro b hb
+    have hent := hrc.entry b hb
+    refine ⟨?_, hent, hrc.key_ne_source b hb⟩
+    rw [hsol] at hent ⊢
+    exact hd.fresh _ b hent
+  have hlinks : SearchDiscipline.LinksFresh cf.inst none route :=
+    SearchDiscipline.linksFresh_of_chain none route hall hrc.chain hrc.head_terminal
+  exact reaccumulated_of_linksFresh hlinks
+
+/-- the route of a search under the discipline is a forward accumulation from the initial state
+(origin = destination: the empty route) -/
+theorem first_route_reaccumulated {cf : Config α} (hI : WF cf.inst) {H : Nat → α}
+    (hH : SearchDiscipline.Heur cf.inst true H) {source target : Nat} {sched : List Nat}
+    {res : SearchResult α} {first : List (Branch α)}
+    (hrun : runVertexOriented cf.inst source (some target) sched = .ok res)
+    (hfirst : res.route = some first) :
+    Reaccumulated cf none (initialState cf.feats) first := by
+  obtain ⟨_, route, hr, hbt⟩ := SearchRoute.runVertexOriented_some hrun
+  rw [hfirst] at hr; cases hr
+  by_cases hts : target = source
+  · subst hts
+    have hp := SearchTree.backtrack_sound hbt
+    have : first = [] := (SearchTree.pathTo_nil_iff hp).2 rfl
+    subst this
+    trivial
+  · exact tree_path_reaccumulated hI hH hts hrun hbt
+
+/-- every accepted route of Yen's algorithm is a forward accumulation from the initial state as soon
+as the first one is: a root path is a prefix of an accepted route, the spur part continues it -/
+theorem YenAcc.reaccumulated {c : Config α} {sim : List Nat → List Nat → Except ErrKind Bool}
+    {source target : Nat} {first : List (Branch α)} {acc : List (List (Branch α))}
+    (h : YenAcc c sim source target first acc)
+    (hfirst : Reaccumulated c.fwd none (initialState c.fwd.feats) first) :
+    ∀ p ∈ acc, Reaccumulated c.fwd none (initialState c.fwd.feats) p := by
+  induction h with
+  | base _ =>
+    intro p hp
+    simp only [List.mem_singleton] at hp
+    subst hp; exact hfirst
+  | snoc _ halt ih =>
+    intro p hp
+    rcases List.mem_append.1 hp with hp | hp
+    · exact ih p hp
+    · simp only [List.mem_singleton] at hp
+      subst hp
+      obtain ⟨prev, hprev, i, spur, h1, h2⟩ := halt.shape
+      rw [h1]
+      exact reaccumulated_append_init (Reaccumulated.take _ (ih prev hprev)) h2
+
+/-- C02 for the route of the first search of a k-shortest-paths run -/
+theorem first_route_least_cost (cf : Config α) (hEL : cf.EdgeLocal) (hwf : 0 ≤ cf.wfOf)
+    {source target : Nat} (hts : target ≠ source)
+    (hadm : SearchOpt.Admissible cf.inst cf.okOf cf.costOf cf.hOf target)
+    {sched : List Nat} {fres : SearchResult α}
+    (h1 : runVertexOriented cf.inst source (some target) sched = .ok fres) :
+    ∃ first, fres.route = some first ∧ first ≠ [] ∧
+      SearchOpt.Walk cf.inst cf.okOf source (first.map (·.edge)) target ∧
+      (first.map (fun b => b.access + b.traversal)).sum =
+        SearchOpt.cost cf.costOf (first.map (·.edge)) ∧
+      ∀ es, SearchOpt.Walk cf.inst cf.okOf source es target →
+        (first.map (fun b => b.access + b.traversal)).sum ≤ SearchOpt.cost cf.costOf es := by
+  have hrun : cf.runVertex source (some target) sched =
+      .ok { trees := [fres.final.sol],
+            routes := (match fres.route with | some x => [x] | none => []),
+            iterations := fres.final.iters } := by
+    unfold Config.runVertex; rw [h1]; rfl
+  obtain ⟨route, hr, hne, hw, hsum, hmin⟩ :=
+    config_astar_route_least_cost cf hEL hwf hts hadm hrun
+  refine ⟨route, ?_, hne, hw, hsum, hmin⟩
+  cases hfr : fres.route with
+  | none => simp [hfr] at hr
+  | some x => simp [hfr] at hr; rw [hr]
+
+/-! ### which errors can stop a query: limits and panics come from the limit function only -/
+
+/-- the error kinds that stop a k-shortest-paths query on the real code: a limit of the termination
+model, a Rust panic (the other two members of `ErrKind.stopsQuery` are artefacts of the replay) -/
+def isStop : ErrKind → Bool
+  | .terminated _ => true
+  | .panic _ => true
+  | _ => false
+
+theorem isStop_iff (k : ErrKind) : isStop k = true ↔ (∃ ks, k = .terminated ks) ∨ ∃ s, k = .panic s := by
+  cases k <;> simp [isStop]
+
+/-- no component of the instance other than the limit function reports a limit or panics -/
+structure ComponentsNeverStop (I : Inst α) : Prop where
+  valid : ∀ e st le k, isStop k = true → I.valid e st le ≠ .error k
+  trav : ∀ e le st k, isStop k = true → I.trav e le st ≠ .error k
+  h : ∀ v st k, isStop k = true → I.h v st ≠ .error k
+
+theorem edgeAccess_never_stop (c : Config α) (e : Nat) (le : Option Nat) (st : List α) (k : ErrKind)
+    (hk : isStop k = true) : edgeAccess c e le st ≠ .error k := by
+  intro h
+  unfold edgeAccess at h
+  split at h
+  · cases h
+  · split at h
+    · cases h; simp [isStop] at hk
+    · simp only at h
+      split at h
+      · cases h; simp [isStop] at hk
+      · split at h
+        · cases h; simp [isStop] at hk
+        · cases h
+
+theorem config_components_never_stop (c : Config α) : ComponentsNeverStop c.inst where
+  valid := by
+    intro e st le k hk h
+    simp only [Config.inst] at h
+    split at h
+    · cases h; simp [isStop] at hk
+    · have : ∀ (fs : List (FrontierM α)), frontierValid fs e le ≠ .error k := by
+        intro fs
+        induction fs with
+        | nil => simp [frontierValid]
+        | cons m ms ih =>
+          simp only [frontierValid]
+          split
+          · intro h'; cases h'; simp [isStop] at hk
+          · simp
+          · exact ih
+      exact this _ h
+  trav := by
+    intro e le st k hk h
+    simp only [Config.inst, edgeTraversal] at h
+    split at h
+    · cases h; simp [isStop] at hk
+    · split at h
+      · rename_i k' hk'
+        cases h
+        exact edgeAccess_never_stop c e le st _ hk hk'
+      · repeat' split at h
+        all_goals first | (cases h; done) | (cases h; simp [isStop] at hk)
+  h := by
+    intro v st k hk h
+    simp only [Config.inst, estimate] at h
+    repeat' split at h
+    all_goals first | (cases h; done) | (cases h; simp [isStop] at hk)
+
+
+theorem relax_never_stop {I : Inst α} (hC : ComponentsNeverStop I) {hasTarget : Bool}
+    {lastEdge : Option Nat} {curState : List α} {s : SState α} {e : Nat} {k : ErrKind}
+    (hk : isStop k = true) : relax I hasTarget lastEdge curState s e ≠ .error k := by
+  intro h
+  unfold relax at h
+  split at h
+  · rename_i k' hk'; cases h; exact hC.valid _ _ _ _ hk hk'
+  · cases h
+  · split at h
+    · rename_i k' hk'; cases h; exact hC.trav _ _ _ _ hk hk'
+    · split at h
+      · cases h
+      · simp only at h
+        split at h
+        · split at h
+          · rename_i k' hk'
+            cases h
+            cases hasTarget with
+            | true => exact hC.h _ _ _ hk hk'
+            | false => simp at hk'
+          · cases h
+        · cases h
+
+theorem relaxAll_never_stop {I : Inst α} (hC : ComponentsNeverStop I) {hasTarget : Bool}
+    {lastEdge : Option Nat} {curState : List α} {k : ErrKind} (hk : isStop k = true) :
+    ∀ (es : List Nat) (s : SState α), relaxAll I hasTarget lastEdge curState es s ≠ .error k
+  | [], s => by simp [relaxAll]
+  | e :: es, s => by
+    simp only [relaxAll]
+    split
+    · rename_i k' hk'
+      intro h; cases h
+      exact relax_never_stop hC hk hk'
+    · exact relaxAll_never_stop hC hk es _
+
+/-- a loop whose limit function never answers with a limit or a panic is never stopped by one -/
+theorem runLoop_never_stop {I : Inst α} (hC : ComponentsNeverStop I)
+    (hT : ∀ sz it k, isStop k = true → I.term sz it ≠ .error k)
+    {source : Nat} {target : Option Nat} {k : ErrKind} (hk : isStop k = true) :
+    ∀ (sched : List Nat) (s : SState α), runLoop I source target sched s ≠ .error k := by
+  intro sched
+  induction sched with
+  | nil =>
+    intro s h
+    rw [SearchLimits.runLoop_unfold] at h
+    split at h
+    · rename_i k' hk'; cases h; exact hT _ _ _ hk hk'
+    · split at h
+      · split at h
+        · cases h; simp [isStop] at hk
+        · cases h
+      · cases h; simp [isStop] at hk
+  | cons v rest ih =>
+    intro s h
+    rw [SearchLimits.runLoop_unfold] at h
+    split at h
+    · rename_i k' hk'; cases h; exact hT _ _ _ hk hk'
+    · split at h
+      · split at h
+        · cases h; simp [isStop] at hk
+        · cases h
+      · simp only at h
+        split at h
+        · cases h; simp [isStop] at hk
+        · split at h
+          · cases h
+          · split at h
+            · cases h; simp [isStop] at hk
+            · split at h
+              · rename_i k' hk'
+                cases h
+                exact relaxAll_never_stop hC hk _ _ hk'
+              · exact ih _ h
+
+
+/-- hence neither is `run_vertex_oriented` (the backtrack adds no error of its own) -/
+theorem runVertexOriented_never_stop {I : Inst α} (hI : WF I) (hC : ComponentsNeverStop I)
+    (hT : ∀ sz it k, isStop k = true → I.term sz it ≠ .error k)
+    {source t : Nat} {sched : List Nat} {k : ErrKind} (hk : isStop k = true) :
+    runVertexOriented I source (some t) sched ≠ .error k := by
+  intro h
+  by_cases hts : t = source
+  · subst hts
+    obtain ⟨res, hres, _⟩ := SearchTree.runVertexOriented_source I t sched
+    rw [hres] at h; cases h
+  · have h' := SearchTree.runVertexOriented_error hI source t sched k hts h
+    unfold runAStar at h'
+    split at h'
+    · cases h'
+    · simp only at h'
+      split at h'
+      · rename_i k' hk'; cases h'; exact hC.h _ _ _ hk hk'
+      · exact runLoop_never_stop hC hT hk _ _ h'
+
+/-- **a configuration without limits**: no search of Yen's algorithm — the first and every spur
+search, on every cut, from every vertex, on every replay — is stopped by a limit or panics -/
+theorem no_limit_never_stopped (c : Config α) (hf : c.fwd.AdjConsistent)
+    (hterm : ∀ sz it, c.term.test sz it = .ok ()) (target : Nat) (cut : List Nat) (v : Nat)
+    (sched : List Nat) (e : ErrKind)
+    (h : runVertexOriented (cutCfg c cut).inst v (some target) sched = .error e) :
+    (∀ ks, e ≠ .terminated ks) ∧ (∀ s, e ≠ .panic s) := by
+  have hI : WF (cutCfg c cut).inst := (cutCfg c cut).inst_wf (cutCfg_adj c cut hf)
+  have hT : ∀ sz it k, isStop k = true → (cutCfg c cut).inst.term sz it ≠ .error k := by
+    intro sz it k _ hk
+    have : (cutCfg c cut).inst.term sz it = c.term.test sz it := rfl
+    rw [this, hterm] at hk
+    cases hk
+  constructor
+  · intro ks he
+    subst he
+    exact runVertexOriented_never_stop hI (config_components_never_stop _) hT (by simp [isStop]) h
+  · intro s he
+    subst he
+    exact runVertexOriented_never_stop hI (config_components_never_stop _) hT (by simp [isStop]) h
+
 /-! ### concrete configurations over ℚ (non-vacuity and witnesses) -/
 
 namespace Example
@@ -2364,6 +2696,98 @@ theorem alt3_adj : (alt3 []).fwd.AdjConsistent := by
   apply adj_of_lists
   · decide +kernel
   · decide
+
+/-! #### `AcceptAll` against a threshold under Yen's algorithm: NOT monotone -/
+
+/-- `0 -e0→ 1 -e1→ 2 -e2→ 3 -e3→ 4` (lengths 1, 1/10, 2/5, 2/5) with the direct edge `e4 : 1 → 4`
+(1) and the detours `2 -e5→ 5 -e6→ 4` (2, 2) and `2 -e7→ 6 -e8→ 4` (3, 3) -/
+def net7 : Config ℚ :=
+  mk 7 [⟨0, 1, 1⟩, ⟨1, 2, 1/10⟩, ⟨2, 3, 2/5⟩, ⟨3, 4, 2/5⟩, ⟨1, 4, 1⟩, ⟨2, 5, 2⟩, ⟨5, 4, 2⟩,
+        ⟨2, 6, 3⟩, ⟨6, 4, 3⟩]
+    [[0], [1, 4], [2, 5, 7], [3], [], [6], [8]] [] []
+
+/-- `RouteSimilarityFunction::DistanceWeightedCosineSimilarity { threshold: 0.5 }` on `net7`, decided
+without the square root (both sides of `cos ≥ 1/2` are non-negative, so it is
+`(Σ_{common} d²)² ≥ 1/4 · Σ_a d² · Σ_b d²`): ℚ has no square root -/
+def simCos7 : List Nat → List Nat → Except ErrKind Bool := fun a b =>
+  let d : Nat → ℚ := fun e => match net7.edges[e]? with | some er => er.dist | none => 0
+  let sq : List Nat → ℚ := fun l => (l.eraseDups.map (fun e => d e * d e)).sum
+  let num := ((a.eraseDups.filter (fun e => b.contains e)).map (fun e => d e * d e)).sum
+  .ok (decide ((1 / 4 : ℚ) * sq a * sq b ≤ num * num))
+
+theorem net7_adj : net7.fwd.AdjConsistent := by
+  apply adj_of_lists
+  · decide +kernel
+  · decide
+
+/-- same network, `k = 3`, same criterion, same replayed schedules: `AcceptAll` returns two routes
+(its second route `[e0, e4]` has two edges, so the next turn has no spur index), the threshold
+three (it turns `[e0, e4]` down, accepts the four-edge `[e0, e1, e5, e6]` and spurs again) -/
+theorem yen_accept_all_fewer :
+    obsOf (yens net7 simAcceptAll .exact 0 4 3
+      [[0, 1, 2, 3, 4], [1, 4], [2, 5, 6, 4], [1, 4], [2, 6, 4]]) = .routes [[0, 1, 2, 3], [0, 4]] ∧
+    obsOf (yens net7 simCos7 .exact 0 4 3
+      [[0, 1, 2, 3, 4], [1, 4], [2, 5, 6, 4], [1, 4], [2, 6, 4]]) =
+        .routes [[0, 1, 2, 3], [0, 1, 5, 6], [0, 1, 7, 8]] := by
+  decide +kernel
+/-! #### the C03 stale-link witness seen through the two algorithms -/
+
+/-- the configuration of `C03.staleConfig` (harness `stale_link_witness(false)`): `s=0, w=1, u=2, v=3,
+t=4`; edges `e0: s→u` (1000), `e1: s→w`, `e2: w→u`, `e3: u→v`, `e4: v→t` (100 each); A* (weight
+factor 1) with great-circle distances far above the edge lengths, so the estimate is inconsistent
+for the network; a 2000 s delay on the right turn `(e2, e3)` -/
+def stale : Config ℚ where
+  nV := 5
+  edges := [⟨0, 2, 1000⟩, ⟨0, 1, 100⟩, ⟨1, 2, 100⟩, ⟨2, 3, 100⟩, ⟨3, 4, 100⟩]
+  outAdj := [[0, 1], [2], [3], [4], []]
+  inAdj := [[], [1], [0, 2], [3], [4]]
+  feats := [{ name := "distance", kind := .dist .meters, init := 0 },
+            { name := "time", kind := .time .seconds, init := 0 }]
+  trav := .distance .meters
+  access := .turnDelay .seconds [(90, some 90), (0, some 0), (0, some 0), (90, some 90), (90, some 90)]
+    [some 0, some 0, some 0, some 2000, some 0, some 0, some 0, some 0]
+  cost := { indices := [0, 1], weights := [1, 1], vehicleRates := [.raw, .raw],
+            networkRates := [.zero, .zero], agg := .sum }
+  frontier := []
+  term := .combined []
+  reverse := false
+  gc := [7000, 6000, 5000, 5200, 0]
+  wf := some 1
+
+/-- (edge, reported state) along every route of a single-via result -/
+def svStatesOf (r : Except ErrKind (AlgResult ℚ)) : Option (List (List (Nat × List ℚ))) :=
+  match r with
+  | .ok res => some (res.routes.map (·.map (fun b => (b.edge, b.state))))
+  | .error _ => none
+
+/-- (edge, reported state) along every route of a Yen outcome -/
+def yenStatesOf (o : KspOutcome ℚ) : Option (List (List (Nat × List ℚ))) :=
+  match o with
+  | .ok res => some (res.routes.map (·.map (fun b => (b.edge, b.state))))
+  | _ => none
+
+theorem stale_adj : stale.fwd.AdjConsistent ∧ (stale.rev [0, 0, 0, 0, 0]).AdjConsistent := by
+  constructor
+  · apply adj_of_lists
+    · decide +kernel
+    · decide
+  · apply adj_of_lists
+    · decide +kernel
+    · decide
+
+/-- both algorithms return the route `s→w→u→v→t` whose third element reports distance 1100 and time
+0 (the entry of `v` was written when `u` was first closed through `e0`, label 1000; `u` was then
+re-opened through `e2`), although `e3` traversed after `e2` from the state the route reports there
+gives distance 300 and time 2000 -/
+theorem stale_link_through_ksp :
+    yenStatesOf (yens stale simAcceptAll .exact 0 4 1 [[0, 2, 1, 2, 3, 4]]) =
+      some [[(1, [100, 0]), (2, [200, 0]), (3, [1100, 0]), (4, [1200, 0])]] ∧
+    svStatesOf (singleVia stale [0, 0, 0, 0, 0] simAcceptAll .exact 0 4 1 [0, 2, 1, 2, 3, 4]
+      [4, 3, 2, 0] []) = some [[(1, [100, 0]), (2, [200, 0]), (3, [1100, 0]), (4, [1200, 0])]] ∧
+    (edgeTraversal stale.fwd 3 (some 2) [200, 0]).toOption.map (·.2.2) = some [300, 2000] := by
+  decide +kernel
+
+
 end Example
 
 end Ksp
